@@ -2332,8 +2332,6 @@ class FnF(Fn):
                 and all(isinstance(x, ast.Name) and self.module_of(x, env) for x in s.iter.elts) and getattr(self, "fullstate", False)):
             # for module in (_eui48, _eui64): unrolled; `break` continues after the loop, the end of the body with the next module
             mods, x = [self.module_of(m, env) for m in s.iter.elts], s.target.id
-            if any(isinstance(n, ast.Name) and n.id == x for st in rest + after for n in ast.walk(st) if st is not s):
-                pass
             outer = (env["@break"], env["@continue"])
 
             def leave(e):
